@@ -11,7 +11,7 @@ import os
 
 UNIT = "n7_inplace"
 TEST_FILTER = "verif_n7_"
-TIMEOUT = 1800
+TIMEOUT = 3600
 RELEASE = True
 TRUSTED = ["canonical Brainfuck semantics as written in the test (the same definition unit u7_inplace proves against)",
            "BOUNDED: all balanced programs of <= 5 commands; long-run family; two input streams; u8, u16, u64; budgets 0, 1, 3, 10, 100; output refused at byte 0 / 1 / 2"]
@@ -19,7 +19,7 @@ HERE = os.path.dirname(os.path.abspath(__file__))
 
 
 def overlay(tier, seed=0):
-    return [{"src": "n7_inplace.rs", "dest": "src/exec/verif_n7_inplace.rs", "mod_in": "src/exec/inplace.rs", "mod_name": "verif_n7", "params": {}}]
+    return [{"src": "n7_inplace.rs", "dest": "src/exec/verif_n7_inplace.rs", "mod_in": "src/exec/inplace.rs", "mod_name": "verif_n7", "params": {"MAXLEN": 5 if tier == "quick" else 6}}]
 
 
 def obligations(tier, seed):
